@@ -1679,6 +1679,16 @@ func (c *ctx) stmts(list []ast.Stmt) string {
 						eff := "eff_" + sanitize(parts[2]) + "_" + sel.Sel.Name
 						return "(let " + eff + " := (Some 1) in " + c.stmts(rest) + ")"
 					}
+					if len(parts) == 2 && parts[0] == "."+sel.Sel.Name && parts[1] != "called" {
+						idx := 0
+						fmt.Sscanf(parts[1], "%d", &idx)
+						if idx >= len(call.Args) {
+							bad(x.Pos(), "capture %s: no such argument", cp)
+						}
+						ae := c.expr(call.Args[idx])
+						eff := "eff_" + sel.Sel.Name + "_" + parts[1]
+						return guardWrap(ae.g, "(let "+eff+" := (Some "+ae.e+") in "+c.stmts(rest)+")")
+					}
 				}
 				return c.stmts(rest)
 			}
@@ -2006,6 +2016,10 @@ func (c *ctx) assign(x *ast.AssignStmt, rest []ast.Stmt) string {
 					if kindOf(t) == "" {
 						// an opaque local: zero-argument selector / method chains hanging off it become inputs (like
 						// those of a parameter); it can also be passed on to other oracle calls
+						if c.info.Defs[id] == nil && c.opaqueL[id.Name] {
+							names = append(names, "")
+							continue
+						}
 						if c.info.Defs[id] == nil {
 							bad(l.Pos(), "re-assignment of %s of unsupported type %s", id.Name, t)
 						}
